@@ -291,6 +291,68 @@ def build_runner():
                 return False, out2
     return True, ''
 
+# ---------------------------------------------------------------- enc tie (Coq-side encoders evaluated by coqc)
+def cz(n):
+    return '(%d)' % n
+def cbytes(b):
+    return '(unhex "%s"%%string)' % bytes(b).hex()
+def clist(items):
+    return '[' + '; '.join(items) + ']'
+def cbool(b):
+    return 'true' if b else 'false'
+
+ENC_TIE = {'terms': [], 'limit': 0, 'compared': 0, 'files': 0}
+
+def enc_tie_collect(mod, cases):
+    if not hasattr(mod, 'enc_tie_term'):
+        return
+    for c in cases:
+        if len(ENC_TIE['terms']) >= ENC_TIE['limit']:
+            return
+        try:
+            t = mod.enc_tie_term(c)
+        except Exception as e:
+            t = None
+        if t is not None:
+            ENC_TIE['terms'].append((c, t[0], bytes(t[1])))
+
+def enc_tie_run(mod, prop_id, out):
+    """the encoders the round-trip theorems are stated with (Coq definitions) are evaluated by coqc (vm_compute) on the
+    structured cases of this run and compared with the bytes the harness's own encoder produced - the bytes the
+    implementation and the model were run on"""
+    terms = ENC_TIE['terms']
+    if not terms:
+        return
+    tdir = os.path.join(VERIF, 'logs', 'enctie')
+    sh('timeout 600 make Py/Hex.vo', cwd=COQ, timeout=700)
+    os.makedirs(tdir, exist_ok=True)
+    per = 120
+    for k in range(0, len(terms), per):
+        chunk = terms[k:k + per]
+        name = 'EncTie_%s_%d' % (prop_id, k // per)
+        src = ('From Coq Require Import ZArith List String Bool.\nFrom Coq.Strings Require Import Byte.\n'
+               'From DRX Require Import Py.PyBytes Py.Hex %s.\nImport ListNotations.\nOpen Scope Z_scope.\n'
+               % ' '.join(mod.ENC_TIE_IMPORTS))
+        src += 'Definition results : list bool := [\n' + ';\n'.join(
+            '  bytes_eqb (%s) %s' % (t, cbytes(b)) for _, t, b in chunk) + '].\nEval vm_compute in results.\n'
+        path = os.path.join(tdir, name + '.v')
+        open(path, 'w').write(src)
+        rc, log = sh('timeout 600 coqc -Q %s DRX %s' % (COQ, path), cwd=tdir, timeout=700)
+        ENC_TIE['files'] += 1
+        m = re.search(r'=\s*\[(.*?)\]\s*:\s*list bool', log, re.S)
+        if rc != 0 or not m:
+            out.failures.append((None, 'enc tie: coqc could not evaluate the Coq-side encoders (%s): %s' % (name, log[-800:]), 'correspondence'))
+            continue
+        vals = re.findall(r'true|false', m.group(1))
+        if len(vals) != len(chunk):
+            out.failures.append((None, 'enc tie: %d results for %d terms in %s' % (len(vals), len(chunk), name), 'correspondence'))
+            continue
+        for (c, t, b), v in zip(chunk, vals):
+            ENC_TIE['compared'] += 1
+            if v != 'true':
+                out.failures.append((c, 'enc tie: the Coq-side encoder of the theorems does not produce the bytes of the harness encoder for this case: %s' % t[:600], 'correspondence'))
+                break
+
 # ---------------------------------------------------------------- known findings
 def load_known(prop_id):
     p = os.path.join(VERIF, 'known_findings.json')
@@ -440,6 +502,7 @@ def main(argv):
     setup_impl()
     mod = importlib.import_module('props.' + prop_id)
     NEEDS_SPEC[0] = bool(getattr(mod, 'NEEDS_SPEC', False))
+    ENC_TIE['limit'] = 0
     prop_file = 'Props/Prop%s.v' % prop_id
 
     if a.replay:
@@ -487,6 +550,7 @@ def main(argv):
     stats = {'evaluations': 0, 'nontrivial': set(), 'dist': {}}
     samples = []
     search_tier = tier if proof_fail is None else 'thorough'
+    ENC_TIE['limit'] = 120 if tier == 'quick' else 720
     if runner_ok or proof_fail is not None:
         # corpus first
         corpus = []
@@ -498,6 +562,7 @@ def main(argv):
         batch = []
         def flush():
             if batch:
+                enc_tie_collect(mod, batch)
                 if runner_ok:
                     evaluate(mod, batch, out, stats)
                 else:
@@ -517,7 +582,10 @@ def main(argv):
                 if time.time() > deadline or len(out.failures) >= 5:
                     break
         flush()
+        if proof_ok:
+            enc_tie_run(mod, prop_id, out)
 
+    lines_note = []
     known = load_known(prop_id)
     known_ids = {e['id']: e for e in known if e.get('status') == 'open'}
     lines = []
@@ -563,6 +631,15 @@ def main(argv):
 
     discharged = n_obl if (proof_fail is None) else 0
     tb = list(getattr(mod, 'TRUSTED_BASE', []))
+    try:
+        fb = json.load(open(os.path.join(COQ, 'Gen', 'fallbacks.json')))
+    except Exception:
+        fb = []
+    for x in fb:
+        msg = ('layout %s (%s): the source text is not in a shape the translator reads (%s); the pinned copy '
+               'tie/pinned/layouts.json is used and this reader is tied by the correspondence run only' % (x['reader'], x['source'], x['why']))
+        tb.append('translator fallback: ' + msg)
+        lines_note.append('NOTE: ' + msg)
     tb.append('Print Assumptions (%d theorems in %s): %s' % (n_printed, prop_file,
               'all closed under the global context' if not axioms else 'axioms: ' + ', '.join(axioms)))
     if coqchk_out is not None:
@@ -590,8 +667,11 @@ def main(argv):
     }
     if hasattr(mod, 'extra_evidence'):
         ev['coverage'].update(mod.extra_evidence(tier))
+    if hasattr(mod, 'enc_tie_term'):
+        ev['coverage']['enc_tie'] = {'cases_compared': ENC_TIE['compared'], 'case_files': ENC_TIE['files'],
+                                     'what': 'the Coq encoders the round-trip theorems are stated with, evaluated by coqc (vm_compute) on the structured cases of this run, compared with the bytes of the harness encoder'}
     write_evidence(prop_id, ev)
-    for l in lines:
+    for l in lines_note + lines:
         print(l)
     if violation:
         print(violation)
